@@ -332,7 +332,14 @@ func TestC12_FixedShapes(t *testing.T) {
 	// a map keyed by a defined string type is a string-keyed map
 	roles := spec.RoleMap(spec.T(spec.TInt), []string{"admin", "Guest"}, []*spec.Value{spec.IntOf(spec.TInt, 10), spec.IntOf(spec.TInt, 2)})
 	account := spec.Struct([]string{"Name", "Quota"}, []*spec.Value{spec.String("acc"), roles})
+	// structs with methods (String, Error) are structs: their fields are what the template sees
+	money := &spec.Value{T: spec.FixedType("Money"), Items: []*spec.Value{spec.IntOf(spec.TInt64, 1250), spec.String("EUR")}}
+	stamp := &spec.Value{T: spec.FixedType("Stamp"), Items: []*spec.Value{spec.IntOf(spec.TInt64, 86400), spec.String("UTC")}}
 	shapes := []shape{
+		{"stringer-struct-field", money, "d.Amount", asInt(1250)}, {"stringer-struct-field-lower", money, "d.currency", asStr("EUR")},
+		{"stringer-struct-index", money, `d["Currency"]`, asStr("EUR")}, {"stringer-struct-behind-pointer", spec.Ptr(money), "d.amount", asInt(1250)},
+		{"stringer-struct-in-slice", spec.Slice(money.T, money), "d[0].Currency", asStr("EUR")},
+		{"pointer-stringer-struct", stamp, "d.zone", asStr("UTC")}, {"pointer-stringer-struct-behind-pointer", spec.Ptr(stamp), "d.Unix", asInt(86400)},
 		{"defined-string-key-dot", roles, "d.admin", asInt(10)}, {"defined-string-key-index", roles, `d["Guest"]`, asInt(2)},
 		{"defined-string-key-in-struct", account, "d.quota.admin", asInt(10)}, {"defined-string-key-in-pointer", spec.Ptr(account), `d.Quota["Guest"]`, asInt(2)},
 		{"defined-string-key-missing", roles, "d.nosuch", asErr}, {"defined-string-key-len-of-sibling", account, "d.name", asStr("acc")},
